@@ -2,6 +2,7 @@ CONSTANTS
   MaxCoord = 9
   Gap = 2
   MayFail = FALSE
+  Guarded = TRUE
 SPECIFICATION Spec
 INVARIANT Monotone WorkingEndIsLatest NothingLost WithinGap StackBounded
 PROPERTY Terminates
